@@ -258,17 +258,26 @@ impl Request {
         
         self.path.init_with_request_bytes(r.read_while(|b| !matches!(b, b' ' | b'?')))?;
 
-        if r.consume_oneof([" ", "?"]).unwrap() == 1 {
-            self.query = QueryParams::new(r.read_while(|b| b != &b' '));
-            r.advance_by(1);
+        if r.consume_oneof([" ", "?"]).ok_or_else(Response::BadRequest)? == 1 {
+            let query_bytes = r.read_while(|b| b != &b' ');
+            (!query_bytes.contains(&b'\0')).then_some(()).ok_or_else(Response::BadRequest)?;
+            self.query = QueryParams::new(query_bytes);
+            r.next_if(|b| *b==b' ').ok_or_else(Response::BadRequest)?;
         }
 
         r.consume("HTTP/1.1\r\n").ok_or_else(Response::HTTPVersionNotSupported)?;
 
         while r.consume("\r\n").is_none() {
             let key_bytes = r.read_while(|b| b != &b':');
+            /* a header name is a non-empty sequence of visible characters (no space, CR, LF, NUL) */
+            (!key_bytes.is_empty() && key_bytes.iter().all(|b| matches!(b, 0x21..=0x7e)))
+                .then_some(()).ok_or_else(Response::BadRequest)?;
             r.consume(": ").ok_or_else(Response::BadRequest)?;
-            let value = CowSlice::Ref(Slice::from_bytes(r.read_while(|b| b != &b'\r')));
+            let value_bytes = r.read_while(|b| b != &b'\r');
+            /* accessors of `headers` promise `&str`s */
+            (std::str::from_utf8(value_bytes).is_ok() && !value_bytes.contains(&b'\0'))
+                .then_some(()).ok_or_else(Response::BadRequest)?;
+            let value = CowSlice::Ref(Slice::from_bytes(value_bytes));
             r.consume("\r\n").ok_or_else(Response::BadRequest)?;
 
             if let Some(key) = RequestHeader::from_bytes(key_bytes) {
@@ -278,9 +287,23 @@ impl Request {
             }
         }
 
+        if self.headers.get_raw(RequestHeader::TransferEncoding).is_some() {
+            /* the framing of such a payload is unknown to this parser: never go on as if there were none */
+            return Err((|| Response::NotImplemented().with_text("ohkami doesn't support `Transfer-Encoding` in requests"))())
+        }
+
         let content_length = match self.headers.get_raw(RequestHeader::ContentLength) {
-            Some(v) => unsafe {v.as_bytes()}.into_iter().fold(0, |len, b| 10*len + (*b - b'0') as usize),
-            None    => 0,
+            Some(v) => {
+                let digits = unsafe {v.as_bytes()};
+                if digits.is_empty() || !digits.iter().all(u8::is_ascii_digit) {
+                    return Err((|| Response::BadRequest().with_text("invalid Content-Length"))())
+                }
+                match digits.iter().try_fold(0usize, |len, b| len.checked_mul(10)?.checked_add((*b - b'0') as usize)) {
+                    Some(len) => len,
+                    None      => return Err((|| Response::PayloadTooLarge())()),
+                }
+            }
+            None => 0,
         };
         match content_length {
             0 => (),
